@@ -176,4 +176,84 @@ theorem roundtrip_tokenize {l : List (Tok × Str)} (h : ∀ p ∈ l, ItemWF p) :
   have := roundtrip_tk h 0 []
   simpa [tk, tokenize] using this
 
+/-! ### the range of the string scanner -/
+
+/-- what a successful skip loop has crossed: plain characters that do not stop it and backslash pairs -/
+theorem skipUntil_crossed (stop : Char → Bool) (r : Str) {r1 : Str} (hn : NoNul r) (h : skipUntil stop r = .ok r1)
+    (hne : r1 ≠ []) : ∃ t, r = t ++ r1 ∧ Units (fun c => stop c = false) (fun x => x ≠ NUL) t := by
+  fun_induction skipUntil stop r generalizing r1
+  case case1 => simp at h; exact absurd h hne
+  case case2 t e he => simp at he
+  case case3 d hd' hrd => simp at hrd; subst hrd; simp at hd'
+  case case4 d hd' x t' hrd ih =>
+    obtain ⟨t0, e0, u0⟩ := ih (fun c hc => hn c (by simp [hc])) h hne
+    have hx : x ≠ NUL := hn x (by simp)
+    exact ⟨'\\' :: x :: t0, by rw [e0]; rfl, Units.pair hx u0⟩
+  case case5 t d hd' hrd ih =>
+    -- a backslash at the very end: the loop ends at the terminator
+    have ht : t = [] := by
+      cases t with
+      | nil => rfl
+      | cons y t =>
+        simp at hrd; subst hrd
+        exact absurd (by simpa using hd') (hn y (by simp))
+    subst ht
+    simp at h
+    exact absurd h hne
+  case case6 c t hc hs =>
+    simp at h
+    exact ⟨[], by simp [h], Units.nil⟩
+  case case7 c t hc hs ih =>
+    obtain ⟨t0, e0, u0⟩ := ih (fun x hx => hn x (by simp [hx])) h hne
+    exact ⟨c :: t0, by rw [e0]; rfl, Units.plain hc (by simpa using hs) u0⟩
+
+theorem hd_units_ne {q : Char} (hq : q ≠ '\\') (hn : q ≠ NUL) {t : Str}
+    (h : Units (fun c => c ≠ q ∧ c ≠ '\n') (fun x => x ≠ NUL) t) : hd t ≠ q := by
+  cases h with
+  | nil => simpa using hn.symm
+  | plain _ h2 _ => simpa using h2.1
+  | pair _ _ => simpa using hq.symm
+
+/-- `unescape` maps the text of a literal to a value of the scanner's range -/
+theorem unescape_valUnits {q : Char} (hq : q ≠ '\\') (hn : q ≠ NUL) (hnl : q ≠ '\n') {t : Str} (ht : NoNul t)
+    (h : Units (fun c => c ≠ q ∧ c ≠ '\n') (fun x => x ≠ NUL) t) : ValUnits q (unescape q t) := by
+  induction h with
+  | nil => exact Units.nil
+  | @plain c t' h1 h2 _ ih =>
+    have : unescape q (c :: t') = c :: unescape q t' := by simp [unescape, h1]
+    rw [this]
+    exact Units.plain h1 ⟨h2.2, ht c (by simp)⟩ (ih (fun x hx => ht x (by simp [hx])))
+  | @pair x t' h1 hu ih =>
+    have ih' := ih (fun y hy => ht y (by simp [hy]))
+    by_cases hx : x = q
+    · subst hx
+      have : unescape x ('\\' :: x :: t') = x :: unescape x t' := by simp [unescape, hq]
+      rw [this]
+      exact Units.plain hq ⟨hnl, hn⟩ ih'
+    · have hnext := hd_units_ne hq hn hu
+      have : unescape q ('\\' :: x :: t') = '\\' :: x :: unescape q t' := by simp [unescape, hx, hnext]
+      rw [this]
+      exact Units.pair ⟨hx, h1⟩ ih'
+
+/-- Every value the string scanner produces lies in `ValUnits '"'` (so `StrWF.val` is exactly the
+    scanner's range, and by `C12_reread_string` every scanned string value survives print + re-read). -/
+theorem getString_range {r : Str} (hn : NoNul r) {v : Str} {e : Nat} {r' : Str}
+    (h : getString 0 ('"' :: r) = .ok (v, true, e, r')) : ValUnits '"' v := by
+  obtain ⟨r2, e2, s2⟩ := skipTo_ok ['"', '\n'] r
+  simp only [getString, encR_zero, hd_cons, adv_cons_one, e2, bind, Except.bind, pure, Except.pure] at h
+  by_cases h2 : hd r2 = '"'
+  · obtain ⟨t2, rfl⟩ := ne_nil_of_hd h2 (by decide)
+    simp at h
+    obtain ⟨t, et, ut⟩ := skipUntil_crossed _ r hn e2 (by simp)
+    have hc : consumed r ('"' :: t2) = t := by rw [et]; exact consumed_append _ _
+    rw [hc] at h
+    rw [← h.1]
+    have ht : NoNul t := fun c hc' => hn c (by rw [et]; simp [hc'])
+    exact unescape_valUnits (by decide) (by decide) (by decide) ht
+      (ut.mono (fun c hc' => by simpa using hc') (fun _ h => h))
+  · simp [h2] at h
+
+/-- the double quote, for use where a bare quote character would unbalance a line -/
+abbrev DQ : Char := '"'
+
 end Occa.Lex
